@@ -8,6 +8,8 @@ CONSTANTS
   MaxWrite = 1
   Validates = {FALSE, TRUE}
   SetClass = "none"
+  MaxEdit = 0
+  MaxAssign = 0
   UpdEnabled = {TRUE}
   Deviations = {"EmptyStrAsNone", "InfTextAsFloat", "UuidTextAsId", "NoneMemberAsText", "IsValueFlipOnNone", "FileFormRejectsWorkspace", "GroupPropagation"}
 VIEW vw
